@@ -433,6 +433,8 @@ class Mesh(Observable):
     def coord(self, coord: _types.FloatArray) -> None:
         for groupElem in self.dict_groupElem.values():
             groupElem.coord = coord
+        # as Translate / Rotate / Symmetry do: the simulations observing the mesh must reassemble
+        self._Notify("The mesh has been modified")
 
     @property
     def connect(self) -> _types.IntArray:
